@@ -65,6 +65,8 @@ def gen_pipelines(rng, tier, npipes=None, big=False, pool=None, p_enc=0.4):
         if r['stream'] == 'buffered':
             r['buf'] = rng.choice([1, 2, 7, 64, 8192])
 
+        r.update(gen.gen_stream_extras(rng))
+
         actors.append(r)
         ids.append((wid, len(ops) + 1))
         ids.append((rid, len(ops) + 4))
